@@ -277,6 +277,9 @@ func (w *World) onConnect(s *Server, inc int, ctx context.Context) {
 
 // ---------------------------------------------------------------- managers
 
+// managerOptions builds the manager options of the run. All durations carry small odd offsets:
+// round values make timers of gorums, of gRPC and of the calls' contexts expire at exactly the same
+// (fake) instant now and then, and the runtime does not order timers with equal deadlines.
 func (w *World) managerOptions(m *Mgr) []gorums.ManagerOption {
 	c := w.Cfg
 	opts := []gorums.ManagerOption{
@@ -284,17 +287,17 @@ func (w *World) managerOptions(m *Mgr) []gorums.ManagerOption {
 			grpc.WithContextDialer(w.net.Dialer(m.Name)),
 			grpc.WithTransportCredentials(insecure.NewCredentials()),
 		),
-		gorums.WithDialTimeout(time.Duration(c.DialTimeoutMs) * time.Millisecond),
+		gorums.WithDialTimeout(time.Duration(c.DialTimeoutMs)*time.Millisecond + 131*time.Microsecond + 7),
 	}
 	if c.WithBlock {
 		opts = append(opts, gorums.WithGrpcDialOptions(grpc.WithBlock()))
 	}
 	if c.BackoffBaseMs > 0 {
 		opts = append(opts, gorums.WithBackoff(backoff.Config{
-			BaseDelay:  time.Duration(c.BackoffBaseMs) * time.Millisecond,
+			BaseDelay:  time.Duration(c.BackoffBaseMs)*time.Millisecond + 17*time.Microsecond + 3,
 			Multiplier: c.BackoffMult,
 			Jitter:     c.BackoffJitter,
-			MaxDelay:   time.Duration(c.BackoffMaxMs) * time.Millisecond,
+			MaxDelay:   time.Duration(c.BackoffMaxMs)*time.Millisecond + 257*time.Microsecond + 11,
 		}))
 	}
 	if c.SendBuffer > 0 {
